@@ -278,7 +278,39 @@ func (c *Ctx) ruleCondStores() {
 				case "condition.kw":
 					ss := srcSet{}
 					c.sources(fn, st.Val, 0, map[ssa.Value]bool{}, ss)
-					if ss["param:1"] || ss["user"] {
+					// ... and it is stored only where the argument was recognised: the asserted string itself,
+					// the result of its own String method, or the first result of a helper whose ok flag is
+					// known true - never a zero default standing for "not a keyword" (which would wipe the
+					// keyword accepted before)
+					recognised := func() bool {
+						switch v := st.Val.(type) {
+						case *ssa.Extract:
+							if _, isTA := v.Tuple.(*ssa.TypeAssert); isTA {
+								return true
+							}
+							if hc, isCall := v.Tuple.(*ssa.Call); isCall && v.Index == 0 {
+								if fa == nil {
+									fa = c.eng.analyze(fn, nil)
+								}
+								return fa.allHold(in, func(s2 *State) bool {
+									for k := 1; k < hc.Call.Signature().Results().Len(); k++ {
+										if ok, known := fa.knownTerm(s2, aTR, fa.callResultTerm(s2, hc, k)); known && ok {
+											return true
+										}
+									}
+									return false
+								})
+							}
+						case *ssa.TypeAssert:
+							return true
+						case *ssa.Call:
+							return !v.Call.IsInvoke() && c.p.callee(&v.Call) == nil // a dynamic call: the value's own stringer
+						}
+						return false
+					}
+					if (ss["param:1"] || ss["user"]) && !recognised() {
+						rep.bad("R-CONDSTORE", relName(fn), construct, pos, "the keyword is overwritten with a value computed for every argument, recognised or not: a wrongly typed argument would replace the accepted keyword with the empty string")
+					} else if ss["param:1"] || ss["user"] {
 						rep.ok("R-CONDSTORE", relName(fn), construct, pos, "the keyword is the argument (or its String() text)")
 					} else {
 						rep.bad("R-CONDSTORE", relName(fn), construct, pos, "the stored keyword does not derive from the argument")
@@ -313,6 +345,69 @@ func (c *Ctx) ruleCondStores() {
 			rep.ok("R-CONDSTORE", "Cond", "records Valid verdict", c.p.pos(fn.Pos()), "SetErr is called with Valid()'s non-nil error")
 		} else {
 			rep.bad("R-CONDSTORE", "Cond", "records Valid verdict", c.p.pos(fn.Pos()), "the constructor does not record Valid()'s error")
+		}
+	}
+	// the constructor offers the three arguments and nothing else happens in between: no error is
+	// recorded ahead of the expression (which would make the expression filter refuse a good value)
+	if fn := c.p.ByName["newCondition"]; fn != nil {
+		var problems []string
+		exprCalls := c.findCalls(fn, "(*condition).setExpression")
+		if len(exprCalls) != 1 {
+			problems = append(problems, "expected one call of setExpression")
+		} else {
+			fe := c.eff.fns[fn]
+			for _, site := range fe.sites {
+				if site.Instr == ssa.Instruction(exprCalls[0]) {
+					continue
+				}
+				// sites from which the expression call is still to come
+				before := false
+				if site.Instr.Block() == exprCalls[0].Block() {
+					before = instrIndex(site.Instr) < instrIndex(exprCalls[0])
+				} else {
+					before = c.blockReaches(site.Instr.Block(), exprCalls[0].Block())
+				}
+				if !before {
+					continue
+				}
+				for _, w := range site.Writes {
+					if w.Loc == "nodeConfig.err" {
+						problems = append(problems, c.p.instrPos(site.Instr)+": an error is recorded before the expression is offered")
+					}
+				}
+			}
+			// the Condition under construction is a fresh object, whose writes the effect summary of
+			// this function leaves out: look at what the callees write, whatever it is rooted at
+			for _, b := range fn.Blocks {
+				for _, in := range b.Instrs {
+					call, ok := in.(*ssa.Call)
+					if !ok || call == exprCalls[0] {
+						continue
+					}
+					before := false
+					if b == exprCalls[0].Block() {
+						before = instrIndex(in) < instrIndex(exprCalls[0])
+					} else {
+						before = c.blockReaches(b, exprCalls[0].Block())
+					}
+					if !before {
+						continue
+					}
+					if cal := c.p.callee(&call.Call); cal != nil && c.p.inPkg(cal) {
+						for _, w := range c.eff.writesOf(cal) {
+							if w.Loc == "nodeConfig.err" {
+								problems = append(problems, c.p.instrPos(in)+": "+relName(cal)+" records an error before the expression is offered")
+							}
+						}
+					}
+				}
+			}
+		}
+		if len(problems) == 0 {
+			rep.ok("R-CONDSTORE", "newCondition", "no error ahead of the expression", c.p.pos(fn.Pos()), "nothing writes the error slot before setExpression is called")
+		} else {
+			sort.Strings(problems)
+			rep.bad("R-CONDSTORE", "newCondition", "no error ahead of the expression", c.p.pos(fn.Pos()), strings.Join(uniq(problems), "; "))
 		}
 	}
 	// a setter writes its own component and nothing else: a refused argument has no other effect
